@@ -96,6 +96,25 @@ def expect_reject(fn, proto_exc=()):
 
 # ------------------------------------------------------------------ list-like containers
 
+def after_clear(obj, what):
+    """Right after clear() / reset() a container holds nothing, whatever it declares: length 0, falsy, and comparing it
+    with anything is an ordinary comparison (dict.clear(), list.clear())."""
+    try:
+        n = len(obj)
+        truth = bool(obj)
+        obj == 5
+        obj != 5
+        obj == obj
+    except error.PyAsn1Error:
+        return
+    except Exception as ex:
+        raise Mismatch('after-%s:observation-raised:%s' % (what, type(ex).__name__), str(ex)[:200])
+    if n != 0:
+        raise Mismatch('after-%s:length-not-zero' % what, 'len %d' % n)
+    if truth:
+        raise Mismatch('after-%s:truthy' % what, '')
+
+
 def nested_clone_probe(kind, L):
     """A SEQUENCE OF / SET OF whose members are records holding the model's integers: a deep clone shares nothing
     with the original, at any depth, in either direction."""
@@ -232,10 +251,12 @@ class ListCase(object):
             return ('neg-set', i, x)
         if op == 'clear':
             self.obj.clear()
+            after_clear(self.obj, 'clear')
             self.L = []
             return ('clear',)
         if op == 'reset':
             self.obj.reset()
+            after_clear(self.obj, 'reset')
             self.L = None
             return ('reset',)
         if op in ('sort', 'reverse'):
@@ -488,10 +509,12 @@ class RecCase(object):
             return (op, nm, repr(v))
         if op == 'clear':
             self.obj.clear()
+            after_clear(self.obj, 'clear')
             self.D = {}
             return ('clear',)
         if op == 'reset':
             self.obj.reset()
+            after_clear(self.obj, 'reset')
             self.D = None
             return ('reset',)
         if op == 'clone':
@@ -767,10 +790,12 @@ class NestedCase(object):
             return ('nested-field',)
         if op == 'clear':
             self.obj.clear()
+            after_clear(self.obj, 'clear')
             self.D = {}
             return ('clear',)
         if op == 'reset':
             self.obj.reset()
+            after_clear(self.obj, 'reset')
             self.D = None
             return ('reset',)
         if op == 'clone':
@@ -902,10 +927,12 @@ class DynCase(object):
             return ('set', i, x)
         if op == 'clear':
             self.obj.clear()
+            after_clear(self.obj, 'clear')
             self.L = []
             return ('clear',)
         if op == 'reset':
             self.obj.reset()
+            after_clear(self.obj, 'reset')
             self.L = None
             return ('reset',)
         if op == 'read':
@@ -935,8 +962,21 @@ class DynCase(object):
             expect_reject(lambda: self.obj.setComponentByPosition(n + 2, univ.Integer(1)), (IndexError,))
             return ('bad-pos',)
         if op == 'bad-name':
-            expect_reject(lambda: self.obj['nope'], (KeyError,))
-            return ('bad-name',)
+            # a name that never existed, and names of positions that do not exist (any more): reads and stores by
+            # such a name are refused and change nothing
+            nm = rng.choice(['nope', 'field-%d' % n, 'field-%d' % (n + 1), 'field-%d' % (n + rng.randint(0, 3))])
+            how = rng.choice(['getitem', 'get-name', 'get-name-no-instantiate', 'setitem', 'set-name'])
+            if how == 'getitem':
+                expect_reject(lambda: self.obj[nm], (KeyError,))
+            elif how == 'get-name':
+                expect_reject(lambda: self.obj.getComponentByName(nm), (KeyError,))
+            elif how == 'get-name-no-instantiate':
+                expect_reject(lambda: self.obj.getComponentByName(nm, instantiate=False), (KeyError,))
+            elif how == 'setitem':
+                expect_reject(lambda: self.obj.__setitem__(nm, univ.Integer(1)), (KeyError,))
+            else:
+                expect_reject(lambda: self.obj.setComponentByName(nm, univ.Integer(1)), (KeyError,))
+            return ('bad-name', how)
         return ('noop',)
 
 
@@ -1129,10 +1169,12 @@ class ChoiceCase(object):
             return (op, nm, repr(v))
         if op == 'clear':
             self.obj.clear()
+            after_clear(self.obj, 'clear')
             self.P = None
             return ('clear',)
         if op == 'reset':
             self.obj.reset()
+            after_clear(self.obj, 'reset')
             self.P = None
             return ('reset',)
         if op == 'read':
